@@ -32,7 +32,7 @@ Lemma rejects_all_neg_sound : forall g d nl nr x,
 Proof.
   intros [k c o] d nl nr x Hr Hd Hx Hf. unfold rejects_all_neg in Hr. unfold fires in Hf. cbn [g_cast g_cmp g_rhs] in *.
   destruct (Z_lt_ge_dec x 0) as [Hneg|]; [exfalso|lia].
-  destruct k, c, o as [z|d']; try discriminate; cbn [cast_eval cmp_eval operand_eval] in Hf.
+  destruct k, c, o as [z|d'|d' m]; try discriminate; cbn [cast_eval cmp_eval operand_eval] in Hf.
   - apply Z.leb_le in Hr. apply Z.ltb_ge in Hf. lia.
   - apply Z.leb_le in Hr. apply Z.leb_gt in Hf. lia.
   - apply dim_eqb_eq in Hr. subst d'. rewrite usize_neg in Hf by lia. unfold Z.gtb in Hf.
@@ -42,29 +42,37 @@ Proof.
   - apply dim_eqb_eq in Hr. subst d'. rewrite usize_neg in Hf by lia. unfold Z.geb in Hf.
     destruct (x + 18446744073709551616 ?= dim_val d nl nr) eqn:E; try discriminate.
     rewrite Z.compare_lt_iff in E. lia.
+  - apply andb_true_iff in Hr as [Hr Hm]. apply dim_eqb_eq in Hr. subst d'. apply Z.leb_le in Hm.
+    rewrite usize_neg in Hf by lia. unfold Z.geb in Hf.
+    destruct (x + 18446744073709551616 ?= Z.max (dim_val d nl nr) m) eqn:E; try discriminate.
+    rewrite Z.compare_lt_iff in E. lia.
 Qed.
 
 Lemma rejects_all_ge_sound : forall g d nl nr x,
-  rejects_all_ge g d = true -> 0 <= x < 9223372036854775808 -> fires g nl nr x = false -> x < dim_val d nl nr.
+  rejects_all_ge g d = true -> 1 <= dim_val d nl nr -> 0 <= x < 9223372036854775808 -> fires g nl nr x = false -> x < dim_val d nl nr.
 Proof.
-  intros [k c o] d nl nr x Hr Hx Hf. unfold rejects_all_ge in Hr. unfold fires in Hf. cbn [g_cast g_cmp g_rhs] in *.
-  destruct c, o as [z|d']; try discriminate. apply dim_eqb_eq in Hr. subst d'.
+  intros [k c o] d nl nr x Hr Hd Hx Hf. unfold rejects_all_ge in Hr. unfold fires in Hf. cbn [g_cast g_cmp g_rhs] in *.
   assert (cast_eval k x = x) as Ec by (destruct k; cbn [cast_eval]; [reflexivity|apply usize_nonneg; lia]).
-  rewrite Ec in Hf. cbn [cmp_eval operand_eval] in Hf. unfold Z.geb in Hf.
-  destruct (x ?= dim_val d nl nr) eqn:E; try discriminate. rewrite Z.compare_lt_iff in E. exact E.
+  rewrite Ec in Hf.
+  destruct c, o as [z|d'|d' m]; try discriminate.
+  - apply dim_eqb_eq in Hr. subst d'. cbn [cmp_eval operand_eval] in Hf. unfold Z.geb in Hf.
+    destruct (x ?= dim_val d nl nr) eqn:E; try discriminate. rewrite Z.compare_lt_iff in E. exact E.
+  - apply andb_true_iff in Hr as [Hr Hm]. apply dim_eqb_eq in Hr. subst d'. apply Z.leb_le in Hm.
+    cbn [cmp_eval operand_eval] in Hf. unfold Z.geb in Hf.
+    destruct (x ?= Z.max (dim_val d nl nr) m) eqn:E; try discriminate. rewrite Z.compare_lt_iff in E. lia.
 Qed.
 
 (* the generic lemma behind every id check: a guard list that `covers` dimension d accepts only 0 <= x < d *)
 Lemma guard_sound : forall gs d nl nr x,
-  covers gs d = true -> 0 <= dim_val d nl nr < 9223372036854775808 ->
+  covers gs d = true -> 1 <= dim_val d nl nr < 9223372036854775808 ->
   -9223372036854775808 <= x < 9223372036854775808 ->
   accepted gs nl nr x = true -> 0 <= x < dim_val d nl nr.
 Proof.
   intros gs d nl nr x Hc Hd Hx Ha. unfold covers in Hc. apply andb_true_iff in Hc as [Hge Hneg].
   apply existsb_exists in Hge as [g1 [Hin1 Hg1]]. apply existsb_exists in Hneg as [g2 [Hin2 Hg2]].
   pose proof (accepted_forall _ _ _ _ Ha) as Hall.
-  assert (0 <= x) as Hnn by (eapply rejects_all_neg_sound; [exact Hg2|exact Hd|lia|apply Hall; exact Hin2]).
-  split; [exact Hnn|]. eapply rejects_all_ge_sound; [exact Hg1|lia|apply Hall; exact Hin1].
+  assert (0 <= x) as Hnn by (apply (rejects_all_neg_sound g2 d nl nr x Hg2); [lia|lia|apply Hall; exact Hin2]).
+  split; [exact Hnn|]. apply (rejects_all_ge_sound g1 d nl nr x Hg1); [lia|lia|apply Hall; exact Hin1].
 Qed.
 
 Lemma confines_sound : forall gs lo hi nl nr x,
@@ -77,10 +85,10 @@ Proof.
   destruct g1 as [k1 c1 o1], g2 as [k2 c2 o2]. unfold rejects_below in Hg1. unfold rejects_above in Hg2.
   unfold fires in F1, F2. cbn [g_cast g_cmp g_rhs] in *.
   split.
-  - destruct k1, c1, o1 as [z|]; try discriminate; cbn [cast_eval cmp_eval operand_eval] in F1.
+  - destruct k1, c1, o1 as [z| |]; try discriminate; cbn [cast_eval cmp_eval operand_eval] in F1.
     + apply Z.leb_le in Hg1. apply Z.ltb_ge in F1. lia.
     + apply Z.leb_le in Hg1. apply Z.leb_gt in F1. lia.
-  - destruct k2, c2, o2 as [z|]; try discriminate; cbn [cast_eval cmp_eval operand_eval] in F2.
+  - destruct k2, c2, o2 as [z| |]; try discriminate; cbn [cast_eval cmp_eval operand_eval] in F2.
     + apply Z.leb_le in Hg2. unfold Z.gtb in F2. destruct (x ?= z) eqn:E; try discriminate.
       * apply Z.compare_eq in E. lia.
       * rewrite Z.compare_lt_iff in E. lia.
